@@ -201,6 +201,61 @@ pub fn run(mut run: Run) -> i32 {
             }
         }
     });
+    // closest_point on longer segments: projection parameters that are not representable (thirds, sevenths ...)
+    let gq: Vec<IP> = { let m = if quick { 11 } else { 15 }; grid(m).into_iter().map(|p| (2 * p.0 - 5, p.1 - 3)).collect() };
+    let ngq = gq.len();
+    run.stage("closest-point-long-segments", ngq * ngq * ngq, |idx, acc| {
+        let (a, b, p) = (gq[idx / (ngq * ngq)], gq[(idx / ngq) % ngq], gq[idx % ngq]);
+        if a == b {
+            return;
+        }
+        let on = on_seg_i(a, b, p);
+        let line = geo::Line::new(c(a), c(b));
+        let lsg = ls(&[a, b, (b.0 + 1, b.1 + 3)]);
+        let on_ls = on || on_seg_i(b, (b.0 + 1, b.1 + 3), p);
+        let pt = Point::new(p.0 as f64, p.1 as f64);
+        let hp = HP::int(p);
+        acc.class(format!("long-seg on{} len2={}", on, ((a.0 - b.0).pow(2) + (a.1 - b.1).pow(2)).min(9)));
+        acc.sample(idx, || json!({"segment": format!("{:?}->{:?}", a, b), "query": format!("{:?}", p), "on_segment": on}));
+        for (name, got, is_on, d2) in [
+            ("Line", guard(|| line.closest_point(&pt)), on, d2_hp_seg(&hp, a, b)),
+            ("LineString", guard(|| lsg.closest_point(&pt)), on_ls, d2_hp_seg(&hp, a, b).min(d2_hp_seg(&hp, b, (b.0 + 1, b.1 + 3)))),
+        ] {
+            acc.evals += 1;
+            let w = |g: String| json!({"segment": format!("{:?}->{:?}", a, b), "type": name, "query": format!("{:?}", p), "on_segment": is_on, "got": g});
+            match got {
+                Err(e) => acc.viol(format!("closest_point panic {} (long segment)", name), idx, || w(e)),
+                Ok(Closest::Indeterminate) => acc.viol(format!("closest_point Indeterminate {} (long segment)", name), idx, || w("Indeterminate".into())),
+                Ok(Closest::Intersection(r)) => {
+                    if !is_on || r != pt {
+                        acc.viol(format!("closest_point Intersection for a point off the {} (or not the query point)", name), idx, || w(format!("Intersection({:?})", r)));
+                    }
+                }
+                Ok(Closest::SinglePoint(r)) => {
+                    if is_on {
+                        acc.viol(format!("closest_point SinglePoint although the query lies on the {}", name), idx, || w(format!("SinglePoint({:?})", r)));
+                    } else {
+                        let want = d2.f();
+                        let got2 = (r.x() - pt.x()).powi(2) + (r.y() - pt.y()).powi(2);
+                        if (got2 - want).abs() > 1e-9 * want {
+                            acc.viol(format!("closest_point result is not at the minimum distance {} (long segment)", name), idx, || w(format!("SinglePoint({:?})", r)));
+                        }
+                        // feed the (rounded) result back in: Intersection exactly when it lies on the line by exact arithmetic on its f64 value
+                        if name == "Line" {
+                            let rq = (r.x(), r.y());
+                            let exact_on = crate::bigf::on_segment((a.0 as f64, a.1 as f64), (b.0 as f64, b.1 as f64), rq);
+                            acc.evals += 1;
+                            match guard(|| line.closest_point(&r)) {
+                                Ok(Closest::Intersection(_)) if exact_on => {}
+                                Ok(Closest::SinglePoint(_)) if !exact_on => {}
+                                other => acc.viol("closest_point re-queried with its own (rounded) result: Intersection iff the point is exactly on the Line - violated".into(), idx, || w(format!("first {:?}, exactly on the line: {}, second {:?}", r, exact_on, other))),
+                            }
+                        }
+                    }
+                }
+            }
+        }
+    });
     // interior_point on every shape
     run.stage("interior-point", n, |idx, acc| {
         let s = &subs[idx];
